@@ -432,17 +432,17 @@ func selfTest(st *tlcStats) {
 	good = append(good,
 		fl(mk("sse", 3, false, "clean", 2, pre, nx(1), blob), 2, 1),
 		fl(mk("sse", 3, true, "clean", 1, pre, ping, blob), 1, 1),
-		fl(mk("mm", 2, false, "clean", 3, bnd, hdr, blob), 1, 1),                         // the initial payload, in Done's flush
-		fl(mk("mm", 2, false, "clean", 3, bnd, hdr, ini("t"), bnd, hdr, blob), 2, 1),      // all three in Done's flush
+		fl(mk("mm", 2, false, "clean", 3, bnd, hdr, blob), 1, 1),                     // the initial payload, in Done's flush
+		fl(mk("mm", 2, false, "clean", 3, bnd, hdr, ini("t"), bnd, hdr, blob), 2, 1), // all three in Done's flush
 		fl(mk("mm", 2, false, "clean", 3, bnd, hdr, ini("t"), bnd, hdr, inc("t", 1), bnd, hdr, blob), 3, 1),
 		fl(mk("sse", 2, false, "clean", 2, pre, nx(1), nx(2), cpl), 0, 2), // a later request of a history
 	)
 	bad = append(bad,
-		fl(mk("sse", 3, false, "clean", 2, pre, nx(1), blob), 0, 1),                   // an error object nobody asked for
-		fl(mk("sse", 3, false, "clean", 2, pre, nx(1), nx(2), blob), 2, 1),            // the payload that cannot be encoded was delivered
-		fl(mk("sse", 3, false, "clean", 2, pre, nx(1), blob, cpl), 2, 1),              // something after the error object
-		fl(mk("sse", 3, false, "clean", 2, pre, blob), 2, 1),                          // an earlier payload lost
-		fl(mk("sse", 2, false, "clean", 2, pre, T("bad", 0, nil, "-"), nx(2), cpl), 0, 2), // a later request with a garbled event
+		fl(mk("sse", 3, false, "clean", 2, pre, nx(1), blob), 0, 1),                                 // an error object nobody asked for
+		fl(mk("sse", 3, false, "clean", 2, pre, nx(1), nx(2), blob), 2, 1),                          // the payload that cannot be encoded was delivered
+		fl(mk("sse", 3, false, "clean", 2, pre, nx(1), blob, cpl), 2, 1),                            // something after the error object
+		fl(mk("sse", 3, false, "clean", 2, pre, blob), 2, 1),                                        // an earlier payload lost
+		fl(mk("sse", 2, false, "clean", 2, pre, T("bad", 0, nil, "-"), nx(2), cpl), 0, 2),           // a later request with a garbled event
 		fl(mk("mm", 2, false, "clean", 3, bnd, hdr, ini("t"), bnd, hdr, inc("f", 1, 2), cls), 2, 1), // delivered although it cannot be encoded
 		fl(mk("mm", 2, false, "clean", 3, bnd, hdr, ini("t"), bnd, hdr, blob, cls), 2, 1),
 	)
